@@ -121,21 +121,21 @@ class _ShapeList(list):
             A CRFT region string.
         """
         crtf_strings = {
-            'circle': '{0}circle[[{1:FMT}deg, {2:FMT}deg], {3:FMT}RAD]',
-            'circleannulus': ('{0}annulus[[{1:FMT}deg, {2:FMT}deg], '
+            'circle': '{0}circle[[{1:FMT}CRD, {2:FMT}CRD], {3:FMT}RAD]',
+            'circleannulus': ('{0}annulus[[{1:FMT}CRD, {2:FMT}CRD], '
                               '[{3:FMT}RAD, {4:FMT}RAD]]'),
             # Make sure that width goes to minor axis and height to
             # major axis
-            'ellipse': ('{0}ellipse[[{1:FMT}deg, {2:FMT}deg], [{4:FMT}RAD, '
+            'ellipse': ('{0}ellipse[[{1:FMT}CRD, {2:FMT}CRD], [{4:FMT}RAD, '
                         '{3:FMT}RAD], {5:FMT}deg]'),
-            'rectangle': ('{0}rotbox[[{1:FMT}deg, {2:FMT}deg], [{3:FMT}RAD, '
+            'rectangle': ('{0}rotbox[[{1:FMT}CRD, {2:FMT}CRD], [{3:FMT}RAD, '
                           '{4:FMT}RAD], {5:FMT}deg]'),
             'polygon': '{0}poly[{1}]',
-            'point': '{0}point[[{1:FMT}deg, {2:FMT}deg]]',
-            'symbol': '{0}symbol[[{1:FMT}deg, {2:FMT}deg], {symbol}]',
-            'text': '{0}text[[{1:FMT}deg, {2:FMT}deg], \'{text}\']',
-            'line': ('{0}line[[{1:FMT}deg, {2:FMT}deg], [{3:FMT}deg, '
-                     '{4:FMT}deg]]')}
+            'point': '{0}point[[{1:FMT}CRD, {2:FMT}CRD]]',
+            'symbol': '{0}symbol[[{1:FMT}CRD, {2:FMT}CRD], {symbol}]',
+            'text': '{0}text[[{1:FMT}CRD, {2:FMT}CRD], \'{text}\']',
+            'line': ('{0}line[[{1:FMT}CRD, {2:FMT}CRD], [{3:FMT}CRD, '
+                     '{4:FMT}CRD]]')}
 
         output = '#CRTFv0\n'
 
@@ -149,9 +149,13 @@ class _ShapeList(list):
         else:
             radunitstr = radunit
 
+        # pixel coordinates carry the unit 'pix', sky coordinates 'deg'
+        crdunit = 'pix' if coordsys.lower() == 'image' else 'deg'
+
         for key, val in crtf_strings.items():
-            crtf_strings[key] = val.replace('FMT', fmt).replace('RAD',
-                                                                radunitstr)
+            crtf_strings[key] = (val.replace('FMT', fmt)
+                                 .replace('RAD', radunitstr)
+                                 .replace('CRD', crdunit))
 
         # CASA does not support global coordinate specification, even
         # though the documentation for the specification explicitly
@@ -229,7 +233,7 @@ class _ShapeList(list):
                 coord[-1] = float(shape.coord[-1].to('deg').value)
 
             if shape.region_type == 'polygon':
-                vals = [f'[{x:{fmt}}deg, {y:{fmt}}deg]'
+                vals = [f'[{x:{fmt}}{crdunit}, {y:{fmt}}{crdunit}]'
                         for x, y in zip(coord[::2], coord[1::2], strict=True)]
                 coord = ', '.join(vals)
                 line = crtf_strings['polygon'].format(include, coord)
